@@ -313,8 +313,28 @@ class ExecBase:
                 out.append((s, v))
                 continue
             for s2, t in self.branch(s, self.truth(s, v)):
+                self.refine_after_test(node.test, t, s2)
                 out.extend(self.exec_block(node.body if t else node.orelse, s2))
         return out
+
+    PRIM_TYPES = {"str": "str", "bool": "bool", "float": "flt"}
+
+    def refine_after_test(self, test, outcome, st):
+        """`if isinstance(x, str)` / `if not isinstance(x, str)`: once the branch is taken the
+        local is rebound to its typed form (sound: the path condition already carries the tag)."""
+        neg = False
+        while isinstance(test, ast.UnaryOp) and isinstance(test.op, ast.Not):
+            test = test.operand
+            neg = not neg
+        if not (isinstance(test, ast.Call) and isinstance(test.func, ast.Name) and test.func.id == "isinstance" and len(test.args) == 2):
+            return
+        x, ty = test.args
+        if not (isinstance(x, ast.Name) and isinstance(ty, ast.Name) and ty.id in self.PRIM_TYPES):
+            return
+        holds = outcome != neg
+        v = st.locals.get(x.id)
+        if holds and isinstance(v, (VU, VOpaque)):
+            st.locals[x.id] = tag_val(v.t, self.PRIM_TYPES[ty.id])
 
     def s_Raise(self, node, st):
         if node.exc is None:
